@@ -72,6 +72,54 @@ fn recursion_families() -> Vec<(&'static str, bool, String, fn(i64) -> i64)> {
             id,
         ),
         (
+            "tail_in_or_rhs",
+            true,
+            "rec let f n = n #Int== 0 || f (n #Int- 1)\nin if f {N} then {N} else 0".into(),
+            id,
+        ),
+        (
+            "tail_in_and_rhs",
+            true,
+            "rec let f n = 0 #Int< n && f (n #Int- 1)\nin if f {N} then 0 else {N}".into(),
+            id,
+        ),
+        (
+            "tail_in_or_and_nested",
+            true,
+            "rec let f n acc = (n #Int== 0 && acc #Int== {N}) || (0 #Int< n && f (n #Int- 1) (acc #Int+ 1))\nin if f {N} 0 then {N} else 0".into(),
+            id,
+        ),
+        (
+            "tail_in_else_if_chain",
+            true,
+            "rec let f n acc = if n #Int== 0 then acc else if n #Int== 1 then f 0 (acc #Int+ 1) else if n #Int== 2 then f 1 (acc #Int+ 1) else f (n #Int- 1) (acc #Int+ 1)\nin f {N} 0".into(),
+            id,
+        ),
+        (
+            "tail_in_nested_match",
+            true,
+            "rec let f n acc =\n    match n with\n    | 0 -> acc\n    | _ ->\n        match acc with\n        | 0 -> f (n #Int- 1) 1\n        | _ -> f (n #Int- 1) (acc #Int+ 1)\nin f {N} 0".into(),
+            id,
+        ),
+        (
+            "tail_in_block_last_expr",
+            true,
+            "rec let f n acc =\n    if n #Int== 0 then acc\n    else\n        let _ = acc\n        let m = n #Int- 1\n        f m (acc #Int+ 1)\nin f {N} 0".into(),
+            id,
+        ),
+        (
+            "tail_mutual_three",
+            true,
+            "rec\nlet f n acc = if n #Int== 0 then acc else g (n #Int- 1) (acc #Int+ 1)\nlet g n acc = if n #Int== 0 then acc else h (n #Int- 1) (acc #Int+ 1)\nlet h n acc = if n #Int== 0 then acc else f (n #Int- 1) (acc #Int+ 1)\nin f {N} 0".into(),
+            id,
+        ),
+        (
+            "tail_in_match_on_variant",
+            true,
+            "rec let f v acc =\n    match v with\n    | A -> acc\n    | C n rest -> if n #Int== 0 then f rest acc else f (C (n #Int- 1) rest) (acc #Int+ 1)\nin f (C {N} A) 0".into(),
+            id,
+        ),
+        (
             "nontail_cps_closures",
             false,
             "rec let f n k = if n #Int== 0 then k 0 else f (n #Int- 1) (\\r -> k (r #Int+ 1))\nin f {N} (\\r -> r)".into(),
